@@ -67,8 +67,10 @@ def run_tlc(module: str, cfg: str | None = None, *, workdir: str | None = None, 
         with open(os.path.join(wd, cfg), "w") as fh:
             fh.write(cfg_text)
     meta = os.path.join(wd, "md_" + module + "_" + str(time.time_ns()))
-    java = ["java", "-XX:+UseParallelGC", f"-Xmx{heap}", "-Dfile.encoding=UTF-8", "-Dstdout.encoding=UTF-8",
-            "-Dsun.stdout.encoding=UTF-8"]
+    # single-worker jobs run sixteen at a time (trace validation): a parallel collector per JVM means hundreds of GC threads
+    gc = os.environ.get("VERIF_TLC_GC") or ("-XX:+UseSerialGC" if str(workers) == "1" else "-XX:+UseParallelGC")
+    java = ["java"] + gc.split() + [f"-Xmx{heap}", "-Dfile.encoding=UTF-8", "-Dstdout.encoding=UTF-8",
+                                    "-Dsun.stdout.encoding=UTF-8"]
     if dfs:
         java.append("-Dtlc2.tool.queue.IStateQueue=StateDeque")
     cmd = java + ["-cp", JAR, "tlc2.TLC", "-workers", str(workers), "-metadir", meta,
